@@ -571,6 +571,14 @@ func (s *scope) createInstance(descriptor *Descriptor) (any, error) {
 		if err := s.setInstance(descriptor, key, instance); err != nil {
 			return nil, err
 		}
+
+		// Registered under several interface types it is still one service,
+		// owned (and later disposed) once.
+		for _, sibling := range descriptor.siblings {
+			if sibling != descriptor && s.rootProvider.isRegistered(sibling) {
+				s.shareInstance(sibling, sibling.identity(), instance)
+			}
+		}
 		return instance, nil
 	}
 
